@@ -291,6 +291,10 @@ func c03Case(c *fw.Case) {
 			sd(q)["anchorOrigin"] = "https://other.example/" + fmt.Sprint(r.Intn(1000))
 		}},
 		{"suffixData.type-changed", func(q map[string]interface{}) { sd(q)["type"] = "zz" + fmt.Sprint(r.Intn(1000)) }},
+		{"suffixData.type-of-another-json-type", func(q map[string]interface{}) {
+			// an optional member that is present with a value of the wrong JSON type is not an absent member
+			sd(q)["type"] = fw.Pick(r, []interface{}{1.0, true, []interface{}{"1"}, map[string]interface{}{"a": "b"}, 0.0, false})
+		}},
 		{"delta.updateCommitment-one-char", func(q map[string]interface{}) {
 			dl(q)["updateCommitment"] = oneChar(fmt.Sprint(dl(q)["updateCommitment"]))
 		}},
